@@ -36,12 +36,14 @@ def main():
     ap = argparse.ArgumentParser()
     ap.add_argument("seeddir")
     ap.add_argument("--props")
-    ap.add_argument("--tier", default="quick")
+    ap.add_argument("--tier")
     ap.add_argument("--install")
     a = ap.parse_args()
     sd = os.path.abspath(a.seeddir)
     meta = json.load(open(os.path.join(sd, "meta.json")))
-    props = (a.props or meta["property"]).split(",")
+    props = (a.props or meta.get("check_props")
+             or meta["property"]).split(",")
+    tier = a.tier or meta.get("check_tier") or "quick"
     tmp = tempfile.mkdtemp(prefix="ebpfcat-seed-")
     out = dict(seed=sd, props=props)
     try:
@@ -72,7 +74,7 @@ def main():
         out["demo_after_tail"] = (so + se).strip().splitlines()[-2:]
         out["checks"] = {}
         for p in props:
-            rc, so, se = sh([os.path.join(VERIF, "check"), p, "--tier", a.tier,
+            rc, so, se = sh([os.path.join(VERIF, "check"), p, "--tier", tier,
                              "--no-evidence"], cwd=VERIF,
                             env=dict(os.environ, EBPFCAT_SRC=dst),
                             timeout=3000)
@@ -105,7 +107,12 @@ def main():
             tgt = os.path.join(VERIF, "seeded", a.install)
             os.makedirs(tgt, exist_ok=True)
             for f in ("patch.diff", "demo.py"):
-                shutil.copy(os.path.join(sd, f), os.path.join(tgt, f))
+                if os.path.abspath(sd) != os.path.abspath(tgt):
+                    shutil.copy(os.path.join(sd, f), os.path.join(tgt, f))
+            if a.props:
+                meta["check_props"] = a.props
+            if a.tier:
+                meta["check_tier"] = a.tier
             meta["verified_by_lead"] = {k: out[k] for k in (
                 "demo_before", "patch_applies", "tests_after", "demo_after",
                 "confirmed", "caught_by", "checks")}
